@@ -639,6 +639,20 @@ func runNodeValidate(dir string, seed uint64, tier string) {
 			}
 		}
 	}
+	// a responder awaiting finalization is told by a validation update that finalization is no longer required but
+	// that the request stays paused (ForcePause): it is still in Finalizing, still reports itself paused, the voucher
+	// result it sends next is a paused Complete, and only a releasing update lets it complete
+	for _, pull := range []bool{false, true} {
+		kd := 2
+		if pull {
+			kd = 0
+		}
+		pre := []nStep{sRegister("T1"), sMReq(2, newReq(7, pull), valSpec{Accepted: true, Fin: true}), sK("tinitiated", k), sData(kd, k, 10, 1, true), sCompleted(k, false)}
+		held := sUpdate(k, valSpec{Accepted: true, Fin: false, Force: true})
+		s.run(fmt.Sprintf("finalizing, held without finalization, voucher result pull=%v", pull), append(append([]nStep{}, pre...), held, sResult(k, 9)), nil)
+		s.run(fmt.Sprintf("finalizing, held without finalization, then released pull=%v", pull), append(append([]nStep{}, pre...), held, sUpdate(k, valSpec{Accepted: true}), sData(kd, k, 5, 2, true)), nil)
+		s.run(fmt.Sprintf("finalizing, held without finalization, held again pull=%v", pull), append(append([]nStep{}, pre...), held, sUpdate(k, valSpec{Accepted: true, Force: true}), sResult(k, 9)), nil)
+	}
 	s.finish(dir, fmt.Sprintf("enumerated: {new, restart} x {push, pull} x {network, transport path} x validator outcome grid (error x accepted x voucher result {none, typed, typed-with-nil-node} x ForcePause x DataLimit {0, below, =, above progress} x RequiresFinalization = 192, stride %d) ; unregistered type / missing voucher / missing selector x the same; UpdateValidationStatus in 9 situations (queued, ongoing, limit-paused, force-paused, finalizing, completed, unknown channel, after restart with nothing registered, initiator side) x the grid; every case ends with one more input to observe that the node is alive", stride), tier == "thorough")
 }
 
